@@ -172,6 +172,40 @@ def run_case(c):
         obs["n_zero_charge"] = obs.get("n_zero_charge", 0) + 1
         if not e <= (1e-12 if c["method"] == "wang" else 1e-9) * fscale:
             bad("zero_charge_noop", "zero Born charges change D by %.3e (scale %.3e) at q=%s dir=%s" % (e, fscale, np.round(q, 4).tolist(), None if qd is None else np.round(qd, 3).tolist()))
+    # the parameters are set again on the SAME dynamical-matrix object (public nac_params setter) after it has been used: it must then answer
+    # for the new Z, eps and factor - reference: a fresh Phonopy object given the new parameters; plus "zero Born charges set again -> no-op"
+    Z2 = Zh * 0.6 + 0.3 * np.array([np.eye(3) * (1 if i % 2 == 0 else -1) for i in range(nat)])
+    Z2 = Z2 - Z2.mean(axis=0)
+    try:
+        Z2, e2 = nacgen.group_average_born_eps(pr, Z2, eh * 1.7 + 0.4 * np.eye(3))
+    except models.SpglibFailed:
+        Z2 = None
+    if Z2 is not None:
+        p2 = {"born": Z2.copy(), "dielectric": e2.copy(), "factor": c["factor"] * 0.5, "method": c["method"]}
+        phn, _ = setup.build_phonopy(dict(c, pmat=pm))
+        phn.force_constants = fcin.copy()
+        phn.nac_params = dict(p2)
+        dm.nac_params = dict(p2)
+        for q, qd in [(np.zeros(3), dirs[0]), (rng.uniform(-0.5, 0.5, 3), None), (np.array([0.5, 0, 0]), None)]:
+            if qd is None:
+                dm.run(q)
+                phn.dynamical_matrix.run(q)
+            else:
+                dm.run(q, q_direction=qd)
+                phn.dynamical_matrix.run(q, q_direction=qd)
+            e = float(np.abs(np.array(dm.dynamical_matrix) - np.array(phn.dynamical_matrix.dynamical_matrix)).max())
+            obs["n_reassigned"] = obs.get("n_reassigned", 0) + 1
+            if not e <= 1e-10 * max(fscale, maxterm):
+                bad("reassigned_params_stale", "after nac_params was assigned again on the same dynamical-matrix object, D at q=%s differs from a fresh object with the new parameters by %.3e (scale %.3e)" % (
+                    np.round(q, 4).tolist(), e, max(fscale, maxterm)), reassigned=True)
+                break
+        dm.nac_params = {"born": np.zeros((nat, 3, 3)), "dielectric": e2.copy(), "factor": c["factor"], "method": c["method"]}
+        qz = rng.uniform(-0.5, 0.5, 3)
+        dm.run(qz)
+        ph0.dynamical_matrix.run(qz)
+        e = float(np.abs(np.array(dm.dynamical_matrix) - np.array(ph0.dynamical_matrix.dynamical_matrix)).max())
+        if not e <= (1e-12 if c["method"] == "wang" else 1e-9) * fscale:
+            bad("zero_charge_noop", "zero Born charges assigned again on a used dynamical-matrix object change D by %.3e (scale %.3e)" % (e, fscale), reassigned=True)
     N = len(sc) // len(pr)
     obs["method_" + c["method"]] = 1
     key = "%s|%s|%s|%s|%s" % (c["crystal"]["name"], c["smat"], c["pmat"], c["method"], c["full"])
